@@ -6,7 +6,6 @@ import (
 	"io"
 	"os"
 	"path/filepath"
-	"strings"
 	"time"
 
 	zz "github.com/krotik/ecal/zzverif"
@@ -218,6 +217,7 @@ func VerifC20Tree() {
 	big := c20Sizes[zz.Choice("size", zz.Param("SIZES", 6))]
 	c20Chunk = zz.Param("CHUNK", 7)
 	srcLen := []int{0, 5, 4090}[zz.Choice("binlen", 3)]
+	repack := zz.Param("REPACK", 0) == 1 && zz.Bool("targetHoldsAnEarlierLargerPack")
 	type fileT struct {
 		path string
 		id   int
@@ -272,68 +272,34 @@ func VerifC20Tree() {
 			for _, f := range files {
 				put(f.path, content(f))
 			}
-		}, shape == 3)
+		}, shape == 3, repack)
 		return
 	}
-	c20Files = map[string][]byte{"root/main.ecal": []byte(entry)}
-	c20Dirs = map[string][]c20Ent{"root": nil}
-	addEnt := func(dir string, e c20Ent) {
-		for _, x := range c20Dirs[dir] {
-			if x.name == e.name {
-				return
-			}
-		}
-		l := append(c20Dirs[dir], e)
-		for i := len(l) - 1; i > 0 && l[i].name < l[i-1].name; i-- {
-			l[i], l[i-1] = l[i-1], l[i]
-		}
-		c20Dirs[dir] = l
-	}
-	addEnt("root", c20Ent{"main.ecal", false, int64(len(entry))})
+	memReset()
+	memPut("root/main.ecal", []byte(entry), 0644)
 	for _, f := range files {
-		dir := "root"
-		rest := f.path
-		for {
-			i := strings.Index(rest, "/")
-			if i < 0 {
-				break
-			}
-			addEnt(dir, c20Ent{rest[:i], true, 0})
-			dir += "/" + rest[:i]
-			if _, ok := c20Dirs[dir]; !ok {
-				c20Dirs[dir] = nil
-			}
-			rest = rest[i+1:]
-		}
-		c := content(f)
-		addEnt(dir, c20Ent{rest, false, int64(len(c))})
-		c20Files["root/"+f.path] = c
+		memPut("root/"+f.path, content(f), 0644)
 	}
 	if shape == 3 {
-		addEnt("root", c20Ent{"hollow", true, 0})
-		c20Dirs["root/hollow"] = nil
+		memMkdir("root/hollow")
 	}
 	c20Source = make([]byte, srcLen)
 	for i := range c20Source {
 		c20Source[i] = "x#\n"[i%3]
 	}
-	zz.Replace("path/filepath.Abs", c20Abs)
-	zz.Replace("github.com/krotik/common/fileutil.PathExists", c20Exists)
-	zz.Replace("os.Stat", c20Stat)
-	zz.Replace("os.Open", c20Open)
-	zz.Replace("os.Create", c20Create)
-	zz.Replace("os.Chmod", c20Chmod)
-	zz.Replace("io.Copy", c20Copy)
-	zz.Replace("io/ioutil.ReadDir", c20ReadDir)
-	zz.Replace("io/ioutil.ReadFile", c20ReadFile)
-	zz.Replace("(*os.File).Read", c20Read)
-	zz.Replace("(*os.File).Write", c20Write)
-	zz.Replace("(*os.File).WriteString", c20WriteString)
-	zz.Replace("(*os.File).Seek", c20Seek)
-	zz.Replace("(*os.File).Close", c20Close)
-	zz.Replace("io.NewSectionReader", c20SectionReal)
+	memPut("src.bin", c20Source, 0755)
+	memInstall()
 	zz.Replace("archive/zip.compressor", c20Compressor)
 	zz.Replace("archive/zip.decompressor", c20Decompressor)
+	if repack {
+		// the target already holds the result of packing another, larger project
+		memPut("root0/main.ecal", []byte("import \"big.ecal\" as b\n70 + b.t\n"), 0644)
+		memPut("root0/big.ecal", c20Module(7, 600), 0644)
+		dir0, src0, target0 := "root0", "src.bin", "out.bin"
+		var log0 bytes.Buffer
+		p0 := &CLIPacker{EntryFile: "root0/main.ecal", Dir: &dir0, SourceBinary: &src0, TargetBinary: &target0, LogOut: &log0}
+		zz.Assert(p0.Pack() == nil, "C20.pack-succeeds")
+	}
 	dir, src, target := "root", "src.bin", "out.bin"
 	var log bytes.Buffer
 	p := &CLIPacker{EntryFile: "root/main.ecal", Dir: &dir, SourceBinary: &src, TargetBinary: &target, LogOut: &log}
@@ -360,7 +326,7 @@ func VerifC20Tree() {
 }
 
 // c20NativeTree: the same tree on the real file system with the real Pack and RunPackedBinary.
-func c20NativeTree(srcLen int, entry string, want int, fill func(put func(string, []byte)), hollow bool) {
+func c20NativeTree(srcLen int, entry string, want int, fill func(put func(string, []byte)), hollow bool, repack bool) {
 	tmp, err := os.MkdirTemp("", "c20t")
 	if err != nil {
 		panic(err)
@@ -383,6 +349,14 @@ func c20NativeTree(srcLen int, entry string, want int, fill func(put func(string
 	src, target := filepath.Join(tmp, "src.bin"), filepath.Join(tmp, "out.bin")
 	os.WriteFile(src, srcb, 0755)
 	var log bytes.Buffer
+	if repack {
+		root0 := filepath.Join(tmp, "root0")
+		os.MkdirAll(root0, 0755)
+		os.WriteFile(filepath.Join(root0, "main.ecal"), []byte("import \"big.ecal\" as b\n70 + b.t\n"), 0644)
+		os.WriteFile(filepath.Join(root0, "big.ecal"), c20Module(7, 600*(32768/c20Chunk+1)), 0644)
+		p0 := &CLIPacker{EntryFile: filepath.Join(root0, "main.ecal"), Dir: &root0, SourceBinary: &src, TargetBinary: &target, LogOut: &log}
+		zz.Assert(p0.Pack() == nil, "C20.pack-succeeds")
+	}
 	p := &CLIPacker{EntryFile: filepath.Join(root, "main.ecal"), Dir: &root, SourceBinary: &src, TargetBinary: &target, LogOut: &log}
 	zz.Assert(p.Pack() == nil, "C20.pack-succeeds")
 	osArgs = []string{target}
